@@ -49,7 +49,7 @@ var atoms = []ref.RuleAtom{
 	{Name: "exclusiveMaximum", Variant: "true"}, {Name: "exclusiveMaximum", Variant: "false"},
 	{Name: "precision"}, {Name: "minLength"}, {Name: "maxLength"}, {Name: "maxLength", Variant: "disordered"}, {Name: "regex"}, {Name: "regex", Variant: "escaped"},
 	{Name: "minItems"}, {Name: "maxItems"}, {Name: "maxItems", Variant: "disordered"},
-	{Name: "additionalProperties"}, {Name: "allOf"}, {Name: "allOf", Variant: "empty-parent"}, {Name: "enum"}, {Name: "or"}, {Name: "or", Variant: "disordered-set"}, {Name: "or", Variant: "ordered-set"}, {Name: "or", Variant: "format-with-length-set"},
+	{Name: "additionalProperties"}, {Name: "allOf"}, {Name: "allOf", Variant: "empty-parent"}, {Name: "enum"}, {Name: "or"}, {Name: "or", Variant: "disordered-set"}, {Name: "or", Variant: "ordered-set"}, {Name: "or", Variant: "format-with-length-set"}, {Name: "or", Variant: "ref-nullable-set"}, {Name: "or", Variant: "ref-optional-set"},
 	{Name: "type", Variant: "kind"}, {Name: "type", Variant: "any"}, {Name: "type", Variant: "ref"}, {Name: "type", Variant: "decimal"}, {Name: "type", Variant: "date"},
 	{Name: "optional", Variant: "true"}, {Name: "optional", Variant: "false"}, {Name: "nullable", Variant: "true"}, {Name: "nullable", Variant: "false"},
 	{Name: "const", Variant: "true"}, {Name: "const", Variant: "false"}, {Name: "foo"},
@@ -186,6 +186,14 @@ func build(c Case) (*ref.SNode, []ref.RuleAtom, bool) {
 					pair = []ref.SRule{gen.TokRule("minLength", "5"), gen.TokRule("maxLength", "1")}
 				}
 				r.Or = []ref.OrItem{{Rules: pair}, {Rules: []ref.SRule{gen.StrRule("type", kn)}}}
+			case "ref-nullable-set": // a reference to a type of another kind than the example, written as a rule set that also admits null
+				other := "@tinteger"
+				if c.Kind == ref.NKInteger {
+					other = "@tstring"
+				}
+				r.Or = []ref.OrItem{{Rules: []ref.SRule{gen.StrRule("type", other), gen.BoolRule("nullable", true)}}, {Rules: []ref.SRule{gen.StrRule("type", kn)}}}
+			case "ref-optional-set": // optional has no place inside an alternative
+				r.Or = []ref.OrItem{{Rules: []ref.SRule{gen.StrRule("type", "@tinteger"), gen.BoolRule("optional", true)}}, {Rules: []ref.SRule{gen.StrRule("type", kn)}}}
 			case "format-with-length-set": // an alternative rule set that puts a length rule next to a format type
 				r.Or = []ref.OrItem{{Rules: []ref.SRule{gen.StrRule("type", "email"), gen.TokRule("minLength", "3")}}, {Rules: []ref.SRule{gen.StrRule("type", kn)}}}
 			case "ordered-set":
